@@ -276,6 +276,7 @@ type Expect struct {
 	Lines  map[int]*Line
 	// once-per-file groups, for metamorphic comparison: category -> "pkg|type" expected reported (true) / free (absent)
 	OnceTypes map[string]map[string]string // cat -> key -> "must"|"never"|"free"
+	OnceFile  map[string]*OnceFileExp      // cat|file|bare type name -> how many once-per-file reports naming that type are due in the file
 }
 
 func (e *Expect) get(l *Line, cat string) *LineExp {
@@ -482,6 +483,15 @@ func Evaluate(p *Prog, cfg Cfg, root string) *Expect {
 				}
 				okey := f.EffPkgPath() + "|" + g[0].once
 				cat := g[0].cat
+				bareName := g[0].once[strings.LastIndex(g[0].once, ".")+1:]
+				ofk := cat + "|" + f.RelPath() + "|" + bareName
+				if e.OnceFile == nil {
+					e.OnceFile = map[string]*OnceFileExp{}
+				}
+				if e.OnceFile[ofk] == nil {
+					e.OnceFile[ofk] = &OnceFileExp{Cat: cat, File: f.RelPath(), Name: bareName}
+				}
+				of := e.OnceFile[ofk]
 				if anyFree {
 					for _, cd := range g {
 						x := e.get(cd.line, cd.cat)
@@ -489,6 +499,7 @@ func Evaluate(p *Prog, cfg Cfg, root string) *Expect {
 						x.Free = true
 					}
 					e.OnceTypes[cat][okey] = "free"
+					of.Free = true
 					continue
 				}
 				done := false
@@ -503,6 +514,10 @@ func Evaluate(p *Prog, cfg Cfg, root string) *Expect {
 					}
 					x.Must[cd.code] = true
 					done = true
+					of.Must++
+					if of.Feature == "" {
+						of.Feature = x.Feature
+					}
 				}
 				if e.OnceTypes[cat][okey] != "free" {
 					if done {
@@ -824,6 +839,13 @@ type Obs struct {
 	Msg  string
 }
 
+// OnceFileExp: the once-per-file codes name the type in their message; a file owes one report per (type, file) group.
+type OnceFileExp struct {
+	Cat, File, Name, Feature string
+	Must                     int
+	Free                     bool
+}
+
 type Mismatch struct {
 	Key    string // cat/direction/feature
 	Detail string
@@ -905,8 +927,38 @@ func Compare(p *Prog, e *Expect, obs []Obs) (mm []Mismatch, judged int, classes 
 			mm = append(mm, Mismatch{Key: cat + "/spurious/non-site-line", Detail: fmt.Sprintf("%s: %v reported on a line that is not part of the program model", k, keys(cs))})
 		}
 	}
+	// once-per-file codes: every (file, type) group that owes a report must be named by one
+	for _, of := range e.OnceFile {
+		if of.Free || of.Must == 0 {
+			continue
+		}
+		code, pat := "TONL01", "type "+of.Name+" is marked @testonly"
+		if of.Cat == PKGO {
+			code, pat = "PKGO01", of.Name+" type is @packageonly"
+		}
+		seen := map[string]bool{}
+		for _, o := range obs {
+			if o.File == of.File && o.Code == code && strings.Contains(o.Msg, pat) {
+				seen[fmt.Sprintf("%d:%d|%s", o.Line, o.Col, firstLine(o.Msg))] = true
+			}
+		}
+		if len(seen) < of.Must {
+			feat := of.Feature
+			if feat == "" {
+				feat = "plain"
+			}
+			mm = append(mm, Mismatch{Key: of.Cat + "/missed-type/" + feat, Detail: fmt.Sprintf("%s: %d %s report(s) naming type %s are due in this file (one per annotated type of that name used here), %d found", of.File, of.Must, code, of.Name, len(seen))})
+		}
+	}
 	sort.Slice(mm, func(i, j int) bool { return mm[i].Detail < mm[j].Detail })
 	return
+}
+
+func firstLine(s string) string {
+	if i := strings.IndexByte(s, '\n'); i >= 0 {
+		return s[:i]
+	}
+	return s
 }
 
 func keys(m map[string]bool) []string {
